@@ -315,8 +315,11 @@ Definition Mode (c : cfg) (nb : N) (w : wal) (d : disk) (nom : spst) (defer : li
     (Seal c nb w d /\ sp_of (sh d) = nom) \/
     (st_failed w = true /\ st_rotate w = None /\ RV c nb w d nom))).
 
+(* deferred operations are well-formed StoreLogs calls *)
+Definition dop_ok (o : sop) : Prop := sop_ok o /\ exists ls, o = OStore ls.
+
 Definition FInv (c : cfg) (nb : N) (h : fstate) : Prop :=
   fs_ok h = true /\ e_fault (ss_env (fs_s h)) = None /\
-  sp_good (fs_nom h) /\ In (fs_nom h) (fs_alts h) /\ Forall sp_good (fs_alts h) /\ Forall sop_ok (fs_defer h) /\
+  sp_good (fs_nom h) /\ In (fs_nom h) (fs_alts h) /\ Forall sp_good (fs_alts h) /\ Forall dop_ok (fs_defer h) /\
   RD c nb (e_disk (ss_env (fs_s h))) (fs_alts h) (fs_defer h) /\
   Mode c nb (ss_wal (fs_s h)) (e_disk (ss_env (fs_s h))) (fs_nom h) (fs_defer h).
